@@ -109,3 +109,14 @@ func (e *Explorer) TraceString() string {
 	}
 	return s
 }
+
+// Chooses returns the results of the verifChoose calls of the current path, in call order
+func (e *Explorer) Chooses() []int {
+	var c []int
+	for _, d := range e.stack[:e.pos] {
+		if d.what == "choose" {
+			c = append(c, d.alts[d.idx])
+		}
+	}
+	return c
+}
